@@ -151,7 +151,7 @@ def _coord_to_niemeyer(coordinate: Coordinate, length: int, base: int) -> str:
     lon_interval = [config['min_x'], config['max_x']]
     character, bit = 0, 0
     lon_component = True
-    lon, lat = coordinate.to_float()
+    lon, lat = coordinate.to_float()[:2]
 
     geohash_position = 0
     while geohash_position < length:
